@@ -358,7 +358,8 @@ pub fn theta_plus() -> Vec<Timing> {
 
 /// tau(theta): time grid spanning all phases; `sub` = subdivisions per cycle (32 in the design).
 pub fn tau(t: &Timing, sub: u32) -> Vec<f32> {
-    let mut v = vec![0.0, t.delay / 2.0, t.delay];
+    // incl. negative zero and a negative time (finite times like any other)
+    let mut v = vec![0.0, -0.0, -0.25, t.delay / 2.0, t.delay];
     let cycles = match t.rep {
         Rep::None => 1,
         Rep::Times(n) => (n + 1).min(3),
@@ -374,7 +375,7 @@ pub fn tau(t: &Timing, sub: u32) -> Vec<f32> {
     }
     v.extend([1.0e6, f32::MAX]);
     v.sort_by(|a, b| a.total_cmp(b));
-    v.dedup();
+    v.dedup_by(|a, b| a.to_bits() == b.to_bits()); // keeps both zeros
     v
 }
 
@@ -511,6 +512,28 @@ pub struct P2 {
     /// Documented, not animated.
     pub z: f32,
     pub w: u8,
+}
+
+/// The same field layout as a *remote* proxy: the animation API hangs off `R3Proxy`, the animated values
+/// are `R3`. Only some fields carry the marker; the un-marked ones are `Lerp`-able.
+#[derive(Clone, Debug, Default, PartialEq)]
+pub struct R3 {
+    pub a: f32,
+    pub k: i32,
+    pub z: f32,
+    pub w: u8,
+}
+
+#[allow(dead_code)]
+#[derive(Animate)]
+#[animate(remote = "R3")]
+pub struct R3Proxy {
+    #[animate]
+    a: f32,
+    #[animate]
+    k: i32,
+    z: f32,
+    w: u8,
 }
 
 // ------------------------------------------------------------------------------------------------
